@@ -8,21 +8,32 @@
 (* PushImpl = "try_insert" (the code) | "find_then_fill" (sensitivity: walk *)
 (* to the first vacant cell, then fill it in a second step).               *)
 (***************************************************************************)
-EXTENDS Naturals, Sequences, FiniteSets, TLC
-CONSTANTS Thread, PushImpl, MaxCells
+EXTENDS Integers, Sequences, FiniteSets, TLC
+CONSTANTS Thread, PushImpl, MaxCells, LentImpl
+\* Lent returns (src/output/lending.rs): a method returning a reference whose responses are r1 x 1, then r2 (open):
+\* the values live in the shared pattern, not in the chain; a call draws its position from the pattern's atomic
+\* counter and borrows the value of that position.  LentImpl = "fetch_add" (the code) | "load_store" (sensitivity).
+LentIds == <<2901, 2902>>
+LentAt(k) == IF k <= 1 THEN LentIds[1] ELSE LentIds[2]
 VARIABLES cell,    \* [1..MaxCells -> value id or 0 (vacant)]
           cur,     \* [Thread -> cell index the pusher is looking at]
           val,     \* [Thread -> value id being pushed, 0 = idle]
           refs,    \* [Thread -> Seq(<<id, cell>>)] references obtained so far
-          lost     \* set of value ids dropped by a failed insert (never in the correct code)
-chvars == <<cell, cur, val, refs, lost>>
+          lost,    \* set of value ids dropped by a failed insert (never in the correct code)
+          lentN,   \* match counter of the lending pattern
+          lpos,    \* [Thread -> 0 idle | -1 call begun | -2 counter loaded (load_store only) | k position drawn]
+          lseen,   \* [Thread -> counter value loaded (load_store only)]
+          lrefs    \* [Thread -> Seq(<<position, value id read when obtained>>)] references to lent returns
+lvars == <<lentN, lpos, lseen, lrefs>>
+chvars == <<cell, cur, val, refs, lost, lvars>>
 ChInit == /\ cell = [i \in 1..MaxCells |-> 0] /\ cur = [t \in Thread |-> 1] /\ val = [t \in Thread |-> 0]
           /\ refs = [t \in Thread |-> <<>>] /\ lost = {}
-PushBegin(t, id) == /\ val[t] = 0 /\ val' = [val EXCEPT ![t] = id] /\ cur' = [cur EXCEPT ![t] = 1]
-                    /\ UNCHANGED <<cell, refs, lost>>
+          /\ lentN = 0 /\ lpos = [t \in Thread |-> 0] /\ lseen = [t \in Thread |-> 0] /\ lrefs = [t \in Thread |-> <<>>]
+PushBegin(t, id) == /\ val[t] = 0 /\ lpos[t] = 0 /\ val' = [val EXCEPT ![t] = id] /\ cur' = [cur EXCEPT ![t] = 1]
+                    /\ UNCHANGED <<cell, refs, lost, lvars>>
 \* one try_insert on the cell the pusher is looking at
 TryInsert(t) ==
-  /\ val[t] # 0 /\ PushImpl = "try_insert" /\ cur[t] <= MaxCells
+  /\ val[t] # 0 /\ PushImpl = "try_insert" /\ cur[t] <= MaxCells /\ UNCHANGED lvars
   /\ IF cell[cur[t]] = 0
      THEN /\ cell' = [cell EXCEPT ![cur[t]] = val[t]]
           /\ refs' = [refs EXCEPT ![t] = Append(@, <<val[t], cur[t]>>)]
@@ -30,27 +41,38 @@ TryInsert(t) ==
      ELSE /\ cur' = [cur EXCEPT ![t] = @ + 1] /\ UNCHANGED <<cell, refs, val, lost>>
 \* the broken variant: find the first vacant cell ... then (another step) fill it
 Find(t) == /\ val[t] # 0 /\ PushImpl = "find_then_fill" /\ cur[t] <= MaxCells /\ cell[cur[t]] # 0
-           /\ cur' = [cur EXCEPT ![t] = @ + 1] /\ UNCHANGED <<cell, refs, val, lost>>
+           /\ cur' = [cur EXCEPT ![t] = @ + 1] /\ UNCHANGED <<cell, refs, val, lost, lvars>>
 Fill(t) == /\ val[t] # 0 /\ PushImpl = "find_then_fill" /\ cur[t] <= MaxCells
            /\ (cell[cur[t]] = 0 \/ TRUE)
            /\ IF cell[cur[t]] = 0
               THEN /\ cell' = [cell EXCEPT ![cur[t]] = val[t]] /\ refs' = [refs EXCEPT ![t] = Append(@, <<val[t], cur[t]>>)] /\ UNCHANGED lost
               ELSE \* somebody else filled it in between: our node is dropped, we are handed theirs
                    /\ lost' = lost \cup {val[t]} /\ refs' = [refs EXCEPT ![t] = Append(@, <<val[t], cur[t]>>)] /\ UNCHANGED cell
-           /\ val' = [val EXCEPT ![t] = 0] /\ UNCHANGED cur
-ChInternal(t) == TryInsert(t) \/ Find(t) \/ Fill(t)
+           /\ val' = [val EXCEPT ![t] = 0] /\ UNCHANGED <<cur, lvars>>
+\* a call of the lending method: begin, draw a position (one atomic step in the code), borrow
+LentBegin(t) == /\ val[t] = 0 /\ lpos[t] = 0 /\ lpos' = [lpos EXCEPT ![t] = -1]
+                /\ UNCHANGED <<cell, cur, val, refs, lost, lentN, lseen, lrefs>>
+LentDraw(t) == /\ lpos[t] = -1 /\ UNCHANGED <<cell, cur, val, refs, lost, lrefs>>
+               /\ IF LentImpl = "fetch_add"
+                  THEN lentN' = lentN + 1 /\ lpos' = [lpos EXCEPT ![t] = lentN + 1] /\ UNCHANGED lseen
+                  ELSE lseen' = [lseen EXCEPT ![t] = lentN] /\ lpos' = [lpos EXCEPT ![t] = -2] /\ UNCHANGED lentN
+LentStore(t) == /\ lpos[t] = -2 /\ lentN' = lseen[t] + 1 /\ lpos' = [lpos EXCEPT ![t] = lseen[t] + 1]
+                /\ UNCHANGED <<cell, cur, val, refs, lost, lseen, lrefs>>
+LentEnd(t) == /\ lpos[t] > 0 /\ lrefs' = [lrefs EXCEPT ![t] = Append(@, <<lpos[t], LentAt(lpos[t])>>)]
+              /\ lpos' = [lpos EXCEPT ![t] = 0] /\ UNCHANGED <<cell, cur, val, refs, lost, lentN, lseen>>
+ChInternal(t) == TryInsert(t) \/ Find(t) \/ Fill(t) \/ LentDraw(t) \/ LentStore(t)
 \* While every other thread is idle the walk of a pusher is deterministic: it ends in the first vacant cell at or
 \* after the one it is looking at.  Trace validation of long chains takes that walk in one step (the single steps
 \* commute with another thread's PushBegin, which touches no cell, and no observable depends on cell numbers).
 FirstVacantFrom(i) == CHOOSE j \in i..MaxCells : cell[j] = 0 /\ \A h \in i..(j - 1) : cell[h] # 0
-Solo(t) == val[t] # 0 /\ PushImpl = "try_insert" /\ \A u \in Thread \ {t} : val[u] = 0
+Solo(t) == val[t] # 0 /\ PushImpl = "try_insert" /\ \A u \in Thread \ {t} : val[u] = 0 /\ lpos[u] = 0
 TryInsertSolo(t) ==
   /\ Solo(t) /\ \E j \in cur[t]..MaxCells : cell[j] = 0
   /\ LET j == FirstVacantFrom(cur[t]) IN
        /\ cell' = [cell EXCEPT ![j] = val[t]]
        /\ refs' = [refs EXCEPT ![t] = Append(@, <<val[t], j>>)]
        /\ cur' = [cur EXCEPT ![t] = j]
-  /\ val' = [val EXCEPT ![t] = 0] /\ UNCHANGED lost
+  /\ val' = [val EXCEPT ![t] = 0] /\ UNCHANGED <<lost, lvars>>
 \* what a reference reads: the value in the cell it designates
 Reads(t, k) == cell[refs[t][k][2]]
 
@@ -59,4 +81,10 @@ RefsOwn == \A t \in Thread : \A k \in 1..Len(refs[t]) : Reads(t, k) = refs[t][k]
 NothingLost == lost = {}
 DistinctCells == \A t, u \in Thread : \A k \in 1..Len(refs[t]), j \in 1..Len(refs[u]) :
                     (t # u \/ k # j) => refs[t][k][2] # refs[u][j][2]
+\* C13 / C10 for lent returns: the positions handed out are pairwise distinct and gap-free, so exactly one borrower
+\* holds the first value; what a reference to a lent return reads never changes (the pattern's values never move)
+LentPositions == UNION { { lrefs[t][k][1] : k \in 1..Len(lrefs[t]) } : t \in Thread }
+LentExact == /\ \A t, u \in Thread : \A k \in 1..Len(lrefs[t]), j \in 1..Len(lrefs[u]) : (t # u \/ k # j) => lrefs[t][k][1] # lrefs[u][j][1]
+             /\ (\A t \in Thread : lpos[t] = 0) => LentPositions = 1..lentN
+LentOwn == \A t \in Thread : \A k \in 1..Len(lrefs[t]) : lrefs[t][k][2] = LentAt(lrefs[t][k][1])
 =============================================================================
